@@ -15,6 +15,8 @@
      sync_return_partition     SendMessage returned another partition than the one chosen
      checker_called            the checker of the taken expectation was not run exactly once on the message
      deviation_not_reported / unexpected_report / report_arguments   ErrorReporter calls (see below)
+     report_after_completion   a report was made only after the completion signal of the shutdown was observable
+                               (AsyncClose: Successes() and Errors() closed)
    Consumer clauses
      consume_result (unexpected / already consumed partition), metadata_result (Topics / Partitions
      answer from the metadata set last), consecutive_offsets, message_partition
@@ -202,10 +204,13 @@ TClose ==
          allobs == AddObs(obs, E.outs)
          \* leftover expectations are reported once, with their number
          want == IF r.rep = <<>> THEN <<>> ELSE <<<<ToString(Len(ps.exps))>>>>
+         \* E.rep: reports made until the step's completion signal was observable (Close returned / after
+         \* AsyncClose both output channels were closed); E.late: reports made after that
      IN /\ ps' = r.ps
         /\ obs' = allobs
         /\ viol' = viol \cup Bad \cup OffViol(E.outs, lastOff, E.i)
-                        \cup RepClauses(E.i, want, E.rep)
+                        \cup RepClauses(E.i, want, E.rep \o E.late)
+                        \cup When(E.late # <<>>, E.i, "report_after_completion")
                         \cup UNION {MsgClauses(allobs, mid) : mid \in DOMAIN pm}
                         \cup When(\E mid \in DOMAIN allobs : mid \notin DOMAIN pm, E.i, "exactly_one_outcome")
   /\ lastOff' = LastSucc(E.outs, lastOff)
@@ -224,6 +229,7 @@ COp ==
     [] E.op = "yielderr" -> CYieldErr(cs, E.p, E.id)
     [] E.op = "drain" -> CDrain(cs, E.p, E.w)
     [] E.op = "consume" -> CConsume(cs, E.p, E.off)
+    [] E.op = "feed" -> CFeed(cs, E.p, E.id, E.off)      \* E.id messages through E.off buffer slots; observed with the feeder at rest
     [] E.op = "readmsg" -> CReadMsg(cs, E.p)
     [] E.op = "readerr" -> CReadErr(cs, E.p)
     [] E.op = "asyncclose" -> CAsyncClose(cs, E.p)
